@@ -36,7 +36,8 @@ using cplx = std::complex<double>;
 using T = cplx;
 
 constexpr int MAXD = 4;
-constexpr std::size_t NBUF = 1 << 16;  // elements
+constexpr std::size_t NBUF = 1 << 18;  // capacity in elements; only the first g_len (the two roots of the current program + guards) are filled and compared
+static std::size_t g_len = 0;
 
 static std::vector<cplx> g_buf;
 static FILE* fprog = nullptr;
@@ -77,8 +78,28 @@ extern "C" void fftw_execute_dft(fftw_plan const p, fftw_complex* in, fftw_compl
 	real(p, in, out);
 }
 
+// planner / executor entry points the adaptor is not modelled to use: reaching one is printed (a correspondence difference by
+// itself; the numeric and frame verdicts decide whether it is a failing input)
+static std::vector<std::string> g_unexpected;
+#define UNEXPECTED(RET, NAME, PARAMS, ARGS) \
+	extern "C" RET NAME PARAMS { \
+		using fn_t = RET (*) PARAMS; \
+		static fn_t real = reinterpret_cast<fn_t>(dlsym(RTLD_NEXT, #NAME)); \
+		if(real == nullptr) { std::fprintf(stderr, "harness: cannot resolve the real " #NAME "\n"); std::abort(); } \
+		g_unexpected.push_back(#NAME); \
+		return real ARGS; \
+	}
+UNEXPECTED(fftw_plan, fftw_plan_dft, (int rank, int const* n, fftw_complex* in, fftw_complex* out, int sign, unsigned flags), (rank, n, in, out, sign, flags))
+UNEXPECTED(fftw_plan, fftw_plan_dft_1d, (int n, fftw_complex* in, fftw_complex* out, int sign, unsigned flags), (n, in, out, sign, flags))
+UNEXPECTED(fftw_plan, fftw_plan_dft_2d, (int n0, int n1, fftw_complex* in, fftw_complex* out, int sign, unsigned flags), (n0, n1, in, out, sign, flags))
+UNEXPECTED(fftw_plan, fftw_plan_dft_3d, (int n0, int n1, int n2, fftw_complex* in, fftw_complex* out, int sign, unsigned flags), (n0, n1, n2, in, out, sign, flags))
+UNEXPECTED(fftw_plan, fftw_plan_many_dft, (int rank, int const* n, int howmany, fftw_complex* in, int const* inembed, int istride, int idist, fftw_complex* out, int const* onembed, int ostride, int odist, int sign, unsigned flags), (rank, n, howmany, in, inembed, istride, idist, out, onembed, ostride, odist, sign, flags))
+UNEXPECTED(fftw_plan, fftw_plan_guru_dft, (int rank, fftw_iodim const* dims, int howmany_rank, fftw_iodim const* howmany_dims, fftw_complex* in, fftw_complex* out, int sign, unsigned flags), (rank, dims, howmany_rank, howmany_dims, in, out, sign, flags))
+UNEXPECTED(void, fftw_execute, (fftw_plan const p), (p))
+
 // canonical text of a group of iodims: the transform does not depend on the order in which the dimensions of a group are
 // listed nor on the strides of a dimension of size 1, so triples are sorted and such strides are printed as `_`
+static std::string plan_str_();
 static std::string group_str(std::vector<std::array<long, 3>> g) {
 	std::vector<std::string> t;
 	std::sort(g.begin(), g.end());
@@ -90,6 +111,12 @@ static std::string group_str(std::vector<std::array<long, 3>> g) {
 	return s;
 }
 static std::string plan_str() {
+	std::string pre; for(auto const& u : g_unexpected) pre += "unexpected " + u + "\n";
+	g_unexpected.clear();
+	if(!pre.empty()) return pre + plan_str_();
+	return plan_str_();
+}
+static std::string plan_str_() {
 	if(!g_cap.planned || !g_cap.executed || g_cap.nplans != 1 || g_cap.nexec != 1) return "plan NONE plans=" + std::to_string(g_cap.nplans) + " execs=" + std::to_string(g_cap.nexec);
 	return "plan " + std::to_string(g_cap.rank) + " :" + group_str(g_cap.dims) + " | " + std::to_string(g_cap.hrank) + " :" + group_str(g_cap.hdims) +
 	       " | in " + std::to_string(g_cap.in) + " out " + std::to_string(g_cap.out) + " | sign " + std::to_string(g_cap.sign) + " flags " + std::to_string(g_cap.flags) +
@@ -153,7 +180,7 @@ template<multi::dimensionality_type D> std::vector<long> sizes_of(VS<D> const& s
 }
 
 static void fill_buffer() {
-	for(std::size_t p = 0; p < NBUF; ++p) g_buf[p] = cplx{static_cast<double>(static_cast<long>((p * 7919U) % 17U) - 8), static_cast<double>(static_cast<long>((p * 104729U) % 13U) - 6)};
+	for(std::size_t p = 0; p < g_len; ++p) g_buf[p] = cplx{static_cast<double>(static_cast<long>((p * 7919U) % 17U) - 8), static_cast<double>(static_cast<long>((p * 104729U) % 13U) - 6)};
 }
 
 // reference: direct evaluation of the unnormalised DFT along the masked dimensions; `ain`/`aout` are the canonical-order
@@ -190,7 +217,7 @@ template<multi::dimensionality_type D> void do_dft(VS<D> const& sin, VS<D> const
 	std::vector<long> ain, aout; walk_addr(vin, ain); walk_addr(vout, aout);
 	auto sz = sizes_of(sin);
 	fill_buffer();
-	std::vector<cplx> before = g_buf;
+	std::vector<cplx> before(g_buf.begin(), g_buf.begin() + static_cast<long>(g_len));
 	g_cap = Captured{};
 	switch(api) {
 		case 0: multi::fftw::dft(which, vin, vout, sign == -1 ? multi::fftw::forward : multi::fftw::backward); break;
@@ -205,9 +232,9 @@ template<multi::dimensionality_type D> void do_dft(VS<D> const& sin, VS<D> const
 	for(std::size_t o = 0; o < aout.size(); ++o) maxerr = std::max(maxerr, std::abs(g_buf[static_cast<std::size_t>(aout[o])] - ref[o]));
 	bool num_ok = maxerr <= 64.0 * 2.2e-16 * scale * (1.0 + std::log2(static_cast<double>(std::max<std::size_t>(aout.size(), 2))));
 	// frame: everything outside the output view is bit-identical
-	std::vector<char> is_out(NBUF, 0); for(long a : aout) is_out[static_cast<std::size_t>(a)] = 1;
+	std::vector<char> is_out(g_len, 0); for(long a : aout) is_out[static_cast<std::size_t>(a)] = 1;
 	long changed = 0;
-	for(std::size_t p = 0; p < NBUF; ++p) { if(!is_out[p] && std::memcmp(&g_buf[p], &before[p], sizeof(cplx)) != 0) ++changed; }
+	for(std::size_t p = 0; p < g_len; ++p) { if(!is_out[p] && std::memcmp(&g_buf[p], &before[p], sizeof(cplx)) != 0) ++changed; }
 	if(!num_ok) std::fprintf(stderr, "harness: num FAIL maxerr=%g scale=%g\n", maxerr, scale);
 	std::fprintf(fans, "num %s | frame %s\n", num_ok ? "ok" : "FAIL", changed == 0 ? "ok" : "FAIL");
 	(void)inplace;
@@ -222,7 +249,7 @@ template<multi::dimensionality_type D> void do_rt(VS<D> const& sin, VS<D> const&
 	auto sz = sizes_of(sin);
 	long npts = 1; for(std::size_t k = 0; k < sz.size(); ++k) if(mask[k]) npts *= sz[k];
 	fill_buffer();
-	std::vector<cplx> before = g_buf;
+	std::vector<cplx> before(g_buf.begin(), g_buf.begin() + static_cast<long>(g_len));
 	g_cap = Captured{};
 	multi::fftw::dft(which, vin, vout, sign == -1 ? multi::fftw::forward : multi::fftw::backward);
 	std::fprintf(fans, "%s\n", plan_str().c_str());
@@ -232,9 +259,9 @@ template<multi::dimensionality_type D> void do_rt(VS<D> const& sin, VS<D> const&
 	double maxerr = 0, mx = 1;
 	for(long a : ain) { maxerr = std::max(maxerr, std::abs(g_buf[static_cast<std::size_t>(a)] - static_cast<double>(npts) * before[static_cast<std::size_t>(a)])); mx = std::max(mx, std::abs(before[static_cast<std::size_t>(a)])); }
 	bool ok = maxerr <= 256.0 * 2.2e-16 * static_cast<double>(npts) * mx * (1.0 + std::log2(static_cast<double>(std::max<std::size_t>(ain.size(), 2))));
-	std::vector<char> touched(NBUF, 0); for(long a : aout) touched[static_cast<std::size_t>(a)] = 1; for(long a : ain) touched[static_cast<std::size_t>(a)] = 1;
+	std::vector<char> touched(g_len, 0); for(long a : aout) touched[static_cast<std::size_t>(a)] = 1; for(long a : ain) touched[static_cast<std::size_t>(a)] = 1;
 	long changed = 0;
-	for(std::size_t p = 0; p < NBUF; ++p) { if(!touched[p] && std::memcmp(&g_buf[p], &before[p], sizeof(cplx)) != 0) ++changed; }
+	for(std::size_t p = 0; p < g_len; ++p) { if(!touched[p] && std::memcmp(&g_buf[p], &before[p], sizeof(cplx)) != 0) ++changed; }
 	if(!ok) std::fprintf(stderr, "harness: rt FAIL maxerr=%g\n", maxerr);
 	std::fprintf(fans, "rt %s | frame %s\n", ok ? "ok" : "FAIL", changed == 0 ? "ok" : "FAIL");
 }
@@ -303,6 +330,16 @@ static void gen_program(Rng& rng, long p, std::uint64_t seed, std::vector<AnyVie
 	std::fprintf(fprog, "prog %ld %llu\n", p, static_cast<unsigned long long>(seed)); std::fprintf(fans, "prog %ld %llu\n", p, static_cast<unsigned long long>(seed));
 	std::size_t D = static_cast<std::size_t>(1 + rng.pick({20, 35, 30, 15}));
 	std::vector<long> E; long ne = 1;
+	// in about 4% of the programs one dimension has a size around a power of two up to 129 (size-dependent shortcuts), the others stay tiny
+	bool large = rng.coin(4);
+	if(large) {
+		D = static_cast<std::size_t>(1 + rng.pick({30, 45, 25}));
+		std::size_t big = static_cast<std::size_t>(rng.range(0, static_cast<long>(D) - 1));
+		for(std::size_t k = 0; k < D; ++k) {
+			long sz = (k == big) ? (long[]){16, 17, 32, 33, 64, 65, 128, 129}[rng.pick({14, 14, 14, 12, 12, 10, 12, 12})] : rng.range(1, 3);
+			ne *= sz; E.push_back(sz);
+		}
+	} else
 	for(std::size_t k = 0; k < D; ++k) {
 		long sz = (long[]){1, 2, 3, 4, 5, 6, 7, 8, 9}[rng.pick({16, 16, 16, 12, 12, 9, 8, 6, 5})];
 		if(ne * sz > 360) sz = 1;
@@ -313,6 +350,7 @@ static void gen_program(Rng& rng, long p, std::uint64_t seed, std::vector<AnyVie
 	long base_out = base_in + used_in + 16 + rng.range(0, 7);
 	regs[3] = gen_view(rng, E, base_out, 2, 3, used_out);
 	if(static_cast<std::size_t>(base_out + used_out + 64) > NBUF) { std::fprintf(stderr, "harness: buffer too small\n"); std::abort(); }
+	g_len = static_cast<std::size_t>(base_out + used_out + 64);
 	int nq = static_cast<int>(rng.range(1, 3));
 	for(int q = 0; q < nq; ++q) {
 		std::string mask; for(std::size_t k = 0; k < D; ++k) mask += rng.coin(55) ? '1' : '0';
@@ -345,12 +383,15 @@ static void run_replay(char const* path) {
 		std::fprintf(fprog, "%s\n", line.c_str());
 		auto w = words(line);
 		if(w.empty() || w[0] == "#") continue;
-		if(w[0] == "prog") { std::fprintf(fans, "%s\n", line.c_str()); continue; }
+		if(w[0] == "prog") { std::fprintf(fans, "%s\n", line.c_str()); g_len = 0; continue; }
 		if(w[0] == "root") {
 			int reg = std::stoi(w[1]); long base = std::stol(w[2]); int D = std::stoi(w[3]);
 			std::vector<Ex> ex;
 			for(int k = 0; k < D; ++k) ex.push_back(Ex{std::stol(w[4 + 2 * static_cast<std::size_t>(k)]), std::stol(w[5 + 2 * static_cast<std::size_t>(k)])});
 			regs[static_cast<std::size_t>(reg)] = make_root_any(ex, g_buf.data() + base);
+			long ne = 1; for(auto const& e : ex) ne *= e.size();
+			g_len = std::max(g_len, static_cast<std::size_t>(base + ne + 64));
+			if(g_len > NBUF) { std::fprintf(stderr, "harness: buffer too small\n"); std::abort(); }
 		} else if(w[0] == "v") {
 			int dst = std::stoi(w[1]); int src = std::stoi(w[2]);
 			Op op; op.name = w[3];
